@@ -36,6 +36,13 @@ def gen_union(seed, k):
     name = rng.choice(["Un", "Un", "Un", "H", "HH", "Hasher", "T", "S", "Formatter", "D"])
     td = U.random_union(rng, traits=traits, generic=rng.random() < 0.25, max_fields=3, name=name)
     fs = td.variants[0].fields
+    if td.params:
+        # a defaulted parameter, used at an instantiation of another size than the default: "the bytes of the value" are those
+        # of Self, not of the type as it is spelled without arguments (own random stream: the definitions stay what they were)
+        drng = rng_for(seed, PROP, "pdefault", k)
+        if drng.random() < 0.7:
+            td.params[0]["default"] = {"u8": drng.choice(["u32", "[u8; 7]"]), "u32": drng.choice(["u8", "u64"]), "[u8; 3]": drng.choice(["u8", "u64"])}.get(
+                td.params[0]["arg"], drng.choice(["u8", "[u8; 16]"]))
     if not td.params and rng.random() < 0.07:
         # a union without a single byte: "the byte slice of the value" is the empty slice, printed / hashed as such
         zst = [("()", 1), ("[u32; 0]", 4), ("::core::marker::PhantomData<u8>", 1), ("[u8; 0]", 1), ("[(); 3]", 1)]
